@@ -90,12 +90,17 @@ def guarded(f):
 
 def rand_cfg(rng, wild):
     n_tracks = rng.choice([1, 1, 2, 3])
-    kw = dict(ppqn=rng.choice([None, None, 24, 12, 48, 7] if wild else [None, 24]),
+    # ppqn: the object's own value is used for the bar capacities, the module constant PPQN for imputed note-offs (audit 4 C6);
+    # 12 / 48 / 96 occur in EVERY third of the configurations (scaled valid pieces: `rand_tracks`), odd values in the wild ones
+    kw = dict(ppqn=rng.choice([None, None, 24, 12, 48, 96, 7] if wild else [None, 24, 12, 48, 96]),
               num_tracks=n_tracks if not (wild and rng.random() < 0.1) else rng.choice([0, -1, 4]),
               pitch_range=rng.choice([(60, 62), (59, 64), (21, 30), (100, 108)]) if not (wild and rng.random() < 0.15)
               else rng.choice([(62, 60), (-2, 1), (98, 101), (0, 3)]),
               step_sizes=None, note_values=None,
-              velocity_bins=rng.choice([1, 1, 2, 3, 4, 5, 8] + ([15, 16, 17, 19, 20, 33] if wild else [])),
+              # velocity_bins: the link is the translated `get_velocity_bins` (Model/TokLib3.lean), every int: counts above the
+              # former 64-row table (65 … 128), counts whose bins repeat 127 (D16b), 0 (ZeroDivisionError) and negative counts
+              velocity_bins=rng.choice([1, 1, 2, 3, 4, 5, 8] + ([15, 16, 17, 19, 20, 33, 64, 65, 100, 127, 128, 0, -1, -3] if wild
+                                                                 else [32, 65, 96, 128])),
               time_signature_range=rng.choice([(2, 16), (2, 16), (1, 4), (6, 12)]) if not (wild and rng.random() < 0.15)
               else rng.choice([(5, 3), (-1, 2), (98, 101), (0, 20)]),
               flag_running_values=rng.random() < 0.5, flag_fuse_track=rng.random() < 0.5,
@@ -117,6 +122,11 @@ def rand_cfg(rng, wild):
         kw["step_sizes"] = rng.choice([[4, 4, 8], [2, 2, 2], [8, 4, 8, 4], [12, 6, 12], [3, 1, 2, 3, 1], [24, 24]])
     if rng.random() < 0.2:
         kw["note_values"] = rng.choice([[12, 12, 24], [6, 6], [24, 12, 6, 12, 24], [4, 8, 4], [36, 18, 36, 9, 9]])
+    # many bins fused into the note tokens multiply the vocabulary (dicts are association lists on the Lean side): keep it small
+    if kw["velocity_bins"] > 33 and kw["flag_fuse_velocity"]:
+        kw["pitch_range"] = rng.choice([(60, 61), (60, 60)])
+        kw["num_tracks"] = 1
+        kw["note_values"] = rng.choice([[12], [6, 12], [24, 48], [12, 12, 24]])
     return kw
 
 
@@ -143,16 +153,26 @@ def rand_tracks(rng, tk, wild):
     n = tk.num_tracks if rng.random() < 0.93 else rng.choice([0, 1, 2, 3])
     n = max(n, 0)
     r = rng.random()
-    if r < 0.7 and tk.step_sizes and tk.note_values and all(s > 0 for s in tk.step_sizes) and tk.ppqn == 24:
+    if r < 0.7 and tk.step_sizes and tk.note_values and all(s > 0 for s in tk.step_sizes) and tk.ppqn in (12, 24, 48, 96):
         lo, hi = tk.pitch_range
         if wild and rng.random() < 0.2:
             lo, hi = lo - 1, hi + 1
         if lo > hi:
             lo, hi = hi, lo
-        piece = gens.gen_piece(rng, n_tracks=max(n, 1), n_bars=rng.randint(1, 3), steps=[s for s in tk.step_sizes if s > 0],
-                               values=[v for v in tk.note_values if v > 0] or [4], pitch_range=(lo, hi),
+        # a piece on the bar grid of ppqn 24 (gens.gen_piece), every tick scaled by ppqn / 24: a valid piece for the tokeniser's
+        # own ppqn whenever its step sizes / note values are multiples of that factor (otherwise a piece off the bar grid)
+        q = tk.ppqn
+        steps = [s * 24 // q for s in tk.step_sizes if s > 0 and (s * 24) % q == 0 and (q >= 24 or (s * 24 // q) % (24 // q) == 0)]
+        values = [v * 24 // q for v in tk.note_values if v > 0 and (v * 24) % q == 0 and (q >= 24 or (v * 24 // q) % (24 // q) == 0)]
+        scaled = bool(steps) and bool(values) and rng.random() < 0.8
+        if not scaled:
+            steps, values = [s for s in tk.step_sizes if s > 0], [v for v in tk.note_values if v > 0] or [4]
+        piece = gens.gen_piece(rng, n_tracks=max(n, 1), n_bars=rng.randint(1, 3), steps=steps, values=values, pitch_range=(lo, hi),
                                tail_ok=rng.random() < 0.3, unequal=rng.random() < 0.3)
-        return piece["tracks"][:n]
+        tracks = piece["tracks"][:n]
+        if scaled and q != 24 and all(p[2] is None or (p[2] * q) % 24 == 0 for tr in tracks for p in tr):
+            tracks = [[tuple(x if i != 2 or x is None else x * q // 24 for i, x in enumerate(p)) for p in tr] for tr in tracks]
+        return tracks
     if r < 0.88:
         return [gens.gen_ill_rel(rng, channels=(0, 1), pitches=(tk.pitch_range[0], tk.pitch_range[0] + 1, 60, 61)) for _ in range(n)]
     a, _ = gens.gen_wf_abs(rng, max_tick=96, grid=rng.choice([1, 2, 3, 6]), max_dur=24)
@@ -274,6 +294,7 @@ def main():
     rng = random.Random(int(sys.argv[2]) if len(sys.argv) > 2 else 20260930)
     cases = []     # (label, lean string expression, expected)
     n_dup = 0
+    stats = {"ppqn": {}, "vb>64": 0, "vb<=0": 0, "tok_ok": {}}
     for i in range(n):
         wild = i % 3 == 2
         kw = rand_cfg(rng, wild)
@@ -281,6 +302,9 @@ def main():
         ev = exp_vocab(kw)
         cases.append((f"vocab#{i} {kw}", f"withObj ({cfg}) pVocab", ev))
         n_dup += has_dup(kw)
+        stats["ppqn"][kw["ppqn"]] = stats["ppqn"].get(kw["ppqn"], 0) + 1
+        stats["vb>64"] += kw["velocity_bins"] > 64
+        stats["vb<=0"] += kw["velocity_bins"] <= 0
         if ev.startswith("ERR"):
             continue
         tk = build(kw)
@@ -293,8 +317,10 @@ def main():
             st = "none" if state is None else "(some [" + ", ".join(f"({L_str(k)}, {L_int(v)})" for k, v in state.items()) + "])"
             lean = (f"withObj ({cfg}) (fun o => pE (pTok {L_bool(state is not None)}) (tokenise o [" + ", ".join(L_rel(t) for t in tracks)
                     + f"] {L_bool(ibt)} {L_bool(frts)} {st}))")
-            cases.append((f"tokenise#{i}.{j} {kw} tracks={tracks} ibt={ibt} frts={frts} state={state}", lean,
-                          exp_tokenise(kw, tracks, ibt, frts, state)))
+            want = exp_tokenise(kw, tracks, ibt, frts, state)
+            if not want.startswith("ERR"):
+                stats["tok_ok"][kw["ppqn"]] = stats["tok_ok"].get(kw["ppqn"], 0) + 1
+            cases.append((f"tokenise#{i}.{j} {kw} tracks={tracks} ibt={ibt} frts={frts} state={state}", lean, want))
         for j in range(3):
             toks = rand_tokens(rng, tk, wild or j == 2)
             cases.append((f"detokenise#{i}.{j} {kw} {toks}", f"withObj ({cfg}) (fun o => pE pSeqs (detokenise o {L_strs(toks)}))",
@@ -309,7 +335,7 @@ def main():
         cases.append((f"decode#{i} {kw} {ids}",
                       f"withObj ({cfg}) (fun o => pE (fun l => \" \".intercalate l) (decode o {L_ints(ids)}))", exp_decode(kw, ids)))
 
-    scratch = os.environ.get("SCRATCH", "/root/work/t3tok/scratch")
+    scratch = os.environ.get("SCRATCH", "/tmp/diff_py2lean_tok")
     os.makedirs(scratch, exist_ok=True)
     path = os.path.join(scratch, "DiffTok.lean")
     with open(path, "w") as fh:
@@ -341,6 +367,8 @@ def main():
         print(res.stdout[-3000:], res.stderr[-3000:])
     for kind, (tot, b, errs) in kinds.items():
         print(f"{kind}: {tot} cases ({errs} where the real code raises), {b} differences")
+    print(f"configurations by ppqn: {stats['ppqn']}; velocity_bins > 64: {stats['vb>64']}, <= 0: {stats['vb<=0']}; "
+          f"tokenise calls the real code accepts, by ppqn: {stats['tok_ok']}")
     print(f"configurations with a repeated entry in step_sizes / note_values: {n_dup} of {n}   (SCODA_REPO={REPO})")
     print(f"TOTAL {len(cases)} cases, {bad} differences")
     sys.exit(1 if bad else 0)
